@@ -426,9 +426,25 @@ pub fn childcomp_event(c: u64, m: i32, r2: i32) -> Value {
     json!({"op": "childcomp", "c": quads(c), "m": m, "r2": r2, "ok": ok, "via": quads_list(&via), "direct": quads_list(&direct)})
 }
 
+fn world_event() -> Value {
+    let res0 = a5::get_res0_cells();
+    let list = res0.clone().unwrap_or_default();
+    let parents: Vec<u64> = list.iter().map(|&c| a5::cell_to_parent(c, None).unwrap_or(u64::MAX)).collect();
+    let c = a5::cell_to_lonlat(0).ok();
+    json!({"op": "world", "res0_ok": res0.is_ok(), "res0": quads_list(&list), "parents_of_res0": quads_list(&parents),
+           "children_default": quads_list(&a5::cell_to_children(0, None).unwrap_or_default()),
+           "self_children": quads_list(&a5::cell_to_children(0, Some(-1)).unwrap_or_default()),
+           "world_res": a5::get_resolution(0),
+           "lookup_minus1": quads(a5::lonlat_to_cell(a5::LonLat::new(12.0, 34.0), -1).unwrap_or(u64::MAX)),
+           "centre_is_origin": c.map(|p| p.longitude() == 0.0 && p.latitude() == 0.0).unwrap_or(false),
+           "boundary_len": a5::cell_to_boundary(0, None).map(|b| b.len() as i64).unwrap_or(-1),
+           "parent_of_world_ok": a5::cell_to_parent(0, None).is_ok()})
+}
+
 pub fn gen_c07(tier: &str, seed: u64, out: &str) -> Value {
     let mut rng = Rng::new(seed ^ 0xC07);
     let mut t = Trace::new(out, "c07", 400);
+    t.emit(world_event());
     let exr = if tier == "thorough" { 6 } else { 4 };
     let mut n_children = 0u64;
     let mut n_comp = 0u64;
